@@ -623,6 +623,36 @@ func (c *Ctx) symbolicSprintf(fr *Frame, format string, args []Value) (Value, bo
 			cv := c.concretize(fr, v, "Sprintf argument")
 			lit(fmt.Sprintf(verb, c.toGo(Iface{t: iv.t, v: c.tb.Const(cv, v.s)})))
 			continue
+		case Agg, Slice:
+			var elems []Value
+			if ag, ok := v.(Agg); ok {
+				elems = ag
+			} else {
+				sl := c.concSliceLen(fr, v.(Slice))
+				elems = sl.arr.elems[sl.off : sl.off+int(sl.n.cval)]
+			}
+			if verb != "%x" && verb != "%X" {
+				return nil, false
+			}
+			digits := "0123456789abcdef"
+			if verb == "%X" {
+				digits = "0123456789ABCDEF"
+			}
+			tab := make([]*Term, 16)
+			for d := 0; d < 16; d++ {
+				tab[d] = c.byteConst(digits[d])
+			}
+			hexed := Str{b: make([]*Term, 0, 2*len(elems))}
+			for _, e := range elems {
+				bt, ok := e.(*Term)
+				if !ok || bt.s != S8 {
+					return nil, false
+				}
+				hexed.b = append(hexed.b, c.iteChain(c.tb.ZExt(c.tb.Bin("bvlshr", bt, c.tb.Const(4, S8)), 64), tab), c.iteChain(c.tb.ZExt(c.tb.Bin("bvand", bt, c.tb.Const(15, S8)), 64), tab))
+			}
+			hexed.n = c.tb.Int(int64(len(hexed.b)), 64)
+			out = c.strConcat(fr, out.(Str), c.normStr(hexed))
+			continue
 		default:
 			lit(fmt.Sprintf(verb, c.toGo(arg)))
 		}
@@ -908,3 +938,127 @@ func inBytesRepeat(c *Ctx, fr *Frame, fn *ssa.Function, a []Value) Value {
 }
 
 func init() { intrinsics["bytes.Repeat"] = inBytesRepeat }
+
+// strings.EqualFold for ASCII operands (stated cut: operands containing bytes >= 0x80 are not followed).
+func inEqualFold(c *Ctx, fr *Frame, fn *ssa.Function, a []Value) Value {
+	x, y := a[0].(Str), a[1].(Str)
+	if x.b == nil && y.b == nil {
+		return c.tb.Bool(strings.EqualFold(x.c, y.c))
+	}
+	tb := c.tb
+	xb, yb := c.strBytes(x), c.strBytes(y)
+	xn, yn := c.strLen(x), c.strLen(y)
+	ascii := tb.Bool(true)
+	for k, b := range xb {
+		ascii = tb.And(ascii, tb.Implies(tb.Bin("bvult", tb.Int(int64(k), 64), xn), tb.Bin("bvult", b, tb.Const(0x80, S8))))
+	}
+	for k, b := range yb {
+		ascii = tb.And(ascii, tb.Implies(tb.Bin("bvult", tb.Int(int64(k), 64), yn), tb.Bin("bvult", b, tb.Const(0x80, S8))))
+	}
+	if c.merging > 0 {
+		// inside merged code an assumption cannot be placed; require it as an obligation-free side condition
+		c.noMerge("EqualFold on symbolic operands")
+	}
+	c.assume(fr, ascii, "EqualFold operands are ASCII (engine bound)")
+	lower := func(b *Term) *Term {
+		up := tb.And(tb.Bin("bvule", tb.Const('A', S8), b), tb.Bin("bvule", b, tb.Const('Z', S8)))
+		return tb.Ite(up, tb.Bin("bvadd", b, tb.Const(32, S8)), b)
+	}
+	r := tb.Eq(xn, yn)
+	m := min(len(xb), len(yb))
+	if len(xb) != len(yb) {
+		r = tb.And(r, tb.Bin("bvule", xn, tb.Int(int64(m), 64)))
+	}
+	for k := 0; k < m; k++ {
+		r = tb.And(r, tb.Implies(tb.Bin("bvult", tb.Int(int64(k), 64), xn), tb.Eq(lower(xb[k]), lower(yb[k]))))
+	}
+	return r
+}
+
+func init() { intrinsics["strings.EqualFold"] = inEqualFold }
+
+// strings.ToUpper / ToLower for ASCII operands (stated cut as for EqualFold).
+func inToUpperLower(c *Ctx, fr *Frame, fn *ssa.Function, a []Value) Value {
+	x := a[0].(Str)
+	upper := fn.Name() == "ToUpper"
+	if x.b == nil {
+		if upper {
+			return mkStr(strings.ToUpper(x.c))
+		}
+		return mkStr(strings.ToLower(x.c))
+	}
+	tb := c.tb
+	c.noMerge("ToUpper/ToLower on symbolic operand")
+	ascii := tb.Bool(true)
+	for k, b := range x.b {
+		ascii = tb.And(ascii, tb.Implies(tb.Bin("bvult", tb.Int(int64(k), 64), x.n), tb.Bin("bvult", b, tb.Const(0x80, S8))))
+	}
+	c.assume(fr, ascii, "ToUpper/ToLower operand is ASCII (engine bound)")
+	out := Str{b: make([]*Term, len(x.b)), n: x.n}
+	for k, b := range x.b {
+		if upper {
+			lo := tb.And(tb.Bin("bvule", tb.Const('a', S8), b), tb.Bin("bvule", b, tb.Const('z', S8)))
+			out.b[k] = tb.Ite(lo, tb.Bin("bvsub", b, tb.Const(32, S8)), b)
+		} else {
+			up := tb.And(tb.Bin("bvule", tb.Const('A', S8), b), tb.Bin("bvule", b, tb.Const('Z', S8)))
+			out.b[k] = tb.Ite(up, tb.Bin("bvadd", b, tb.Const(32, S8)), b)
+		}
+	}
+	return out
+}
+
+func init() {
+	intrinsics["strings.ToUpper"] = inToUpperLower
+	intrinsics["strings.ToLower"] = inToUpperLower
+}
+
+// strings.IndexAny / LastIndexAny with a concrete all-ASCII character set: position of the
+// first / last byte of s that is in the set (ASCII bytes never occur inside multi-byte
+// sequences, so byte-wise and rune-wise scanning agree).
+func inIndexAny(c *Ctx, fr *Frame, fn *ssa.Function, a []Value) Value {
+	s, chars := a[0].(Str), c.normStr(a[1].(Str))
+	last := fn.Name() == "LastIndexAny"
+	if chars.b != nil {
+		panic(unsupported("IndexAny with symbolic character set"))
+	}
+	if s.b == nil {
+		if last {
+			return c.tb.Int(int64(strings.LastIndexAny(s.c, chars.c)), 64)
+		}
+		return c.tb.Int(int64(strings.IndexAny(s.c, chars.c)), 64)
+	}
+	for i := 0; i < len(chars.c); i++ {
+		if chars.c[i] >= 0x80 {
+			panic(unsupported("IndexAny with non-ASCII character set on symbolic string"))
+		}
+	}
+	tb := c.tb
+	res := tb.Int(-1, 64)
+	bs := s.b
+	member := func(b *Term) *Term {
+		m := tb.Bool(false)
+		for i := 0; i < len(chars.c); i++ {
+			m = tb.Or(m, tb.Eq(b, c.byteConst(chars.c[i])))
+		}
+		return m
+	}
+	if last {
+		for p := 0; p < len(bs); p++ {
+			hit := tb.And(tb.Bin("bvult", tb.Int(int64(p), 64), s.n), member(bs[p]))
+			res = tb.Ite(hit, tb.Int(int64(p), 64), res)
+		}
+	} else {
+		for p := len(bs) - 1; p >= 0; p-- {
+			hit := tb.And(tb.Bin("bvult", tb.Int(int64(p), 64), s.n), member(bs[p]))
+			res = tb.Ite(hit, tb.Int(int64(p), 64), res)
+		}
+	}
+	return res
+}
+
+func init() {
+	intrinsics["strings.IndexAny"] = inIndexAny
+	intrinsics["strings.LastIndexAny"] = inIndexAny
+	pureIntrinsics["strings.IndexAny"] = true
+	pureIntrinsics["strings.LastIndexAny"] = true
+}
